@@ -17,6 +17,7 @@ Static clauses decided (necessary conditions of C26):
           template are emitted; the inline foreign key carries its ON DELETE action.
  M2M      the de-duplication loop for default many-to-many table names continues until the candidate is absent from
           schema.tables (a clash of a default name never silently reuses an existing table).
+ COLS     default many-to-many column names: one per primary-key column; the single-name form is chosen by the number of columns.
  NULLS    the NOT NULL flag of a mapped column is the negation of the attribute's *effective* nullability (Attribute.nullable,
           which Attribute._init_ forces to True for attributes declared in subclasses of a single-table hierarchy): every
           add_column call of generate_mapping for attribute columns -- the single-column branch and the composite (multi-column
@@ -125,9 +126,30 @@ def run(ctx):
                '' if ok else 'this column gets is_not_null = `%s`; its sibling branches use `%s`: for an attribute declared in a subclass (nullable is forced to True because '
                'rows of the other classes share the table) the column becomes NOT NULL and rows of the sibling classes cannot be inserted'
                % (norm(flag) if flag is not None else 'default', want), node=c, expected=want)
+    # ---------------------------------------------------------------- COLS
+    # a link table gets one column per primary-key COLUMN of the entity (a single primary-key attribute can span several columns when it is a
+    # reference to an entity with a composite key): the generator of default m2m column names returns a single name only under a test of the
+    # number of pk columns (len(<entity._get_pk_columns_()>) == 1), and otherwise one name per column
+    for f in [x for x in repo.rule_funcs() if x.name == 'get_default_m2m_column_names' and x.cls is not None]:
+        cols = {t.id for st in walk_no_nested(f.node) if isinstance(st, ast.Assign) and '_get_pk_columns_()' in norm(st.value) for t in st.targets if isinstance(t, ast.Name)}
+        par_ = {}
+        for x in ast.walk(f.node):
+            for ch in ast.iter_child_nodes(x): par_[id(ch)] = x
+        for r in [x for x in walk_no_nested(f.node) if isinstance(x, ast.Return) and isinstance(x.value, ast.List) and len(x.value.elts) == 1]:
+            guard = None; x = r
+            while id(x) in par_:
+                x = par_[id(x)]
+                if isinstance(x, ast.If): guard = x; break
+            gtxt = norm(guard.test) if guard is not None else ''
+            ok = any(('len(%s)' % c) in gtxt for c in cols) or 'len(entity._get_pk_columns_())' in gtxt
+            ctx.ob('C26-COLS.single-m2m-column-name-only-for-a-single-pk-column', f, r, ok,
+                   '' if ok else 'a single default column name is returned under `%s`, which is not a test of the number of primary-key columns: an entity whose only primary-key '
+                   'attribute is a reference to a composite key gets one name for several columns and generate_mapping() fails' % (gtxt or 'no test'), node=r,
+                   expected='if len(columns) == 1 with columns = entity._get_pk_columns_()')
 
 
 MUTANTS = [
+    dict(id='C26-co1', file='pony/orm/dbapiprovider.py', fn='DBAPIProvider.get_default_m2m_column_names', old="        if len(columns) == 1:", new="        if not entity._pk_is_composite_:", expect='C26-COLS'),
     dict(id='C26-n1', file='pony/orm/core.py', fn='Database.generate_mapping', old="table.add_column(column_name, converter.get_sql_type(), converter, not attr.nullable)", new="table.add_column(column_name, converter.get_sql_type(), converter, attr.is_required)", expect='C26-NULLS'),
     dict(id='C26-m1', file='pony/orm/dbapiprovider.py', fn='DBAPIProvider.get_default_fk_name', old='        return provider.normalize_name(fk_name.lower())', new='        return provider.normalize_name(fk_name).lower() + "_fk"', expect='C26-LIMIT.default-name'),
     dict(id='C26-m2', file='pony/orm/dbapiprovider.py', fn='DBAPIProvider.get_default_m2m_column_names', old="            return [ normalize_name(entity.__name__.lower()) ]", new="            return [ entity.__name__.lower() ]", expect='C26-LIMIT.default-name'),
